@@ -57,6 +57,7 @@ def generate(seed, tier):
     api = rng.choice(["gif", "gif", "video", "creator_gif", "solver_gif"])
     cfg = {"instance": spec, "api": api, "plot": "real" if (not long and n <= 5 and rng.random() < 0.25) else "stub",
            "earlier_episode": rng.randint(1, 6) if rng.random() < 0.3 else 0,
+           "then_shorter": rng.random() < 0.2,
            "frames_dir_name": rng.choice(["frames", "la40_gantt_chart_frames", "run7/frames", "frames_2024"]),
            "out_name": rng.choice(["out", "ft06_gantt_chart", "v2"]),
            "listdir_seed": rng.randrange(1 << 30) if rng.random() < 0.6 else None,
@@ -268,6 +269,7 @@ def execute_anim(case, ctx):
     sink = []
     counter = []
     frames_bars = []
+    frames_xlim = []
     cwd = os.getcwd()
     try:
         # the library only ever sees relative, seed-determined names (the random temp dir is the cwd)
@@ -295,6 +297,7 @@ def execute_anim(case, ctx):
                     warnings.simplefilter("ignore")
                     fig = real(schedule, makespan, available_operations, current_time)
                 frames_bars.append(bars_of(fig.axes[0]))
+                frames_xlim.append(tuple(fig.axes[0].get_xlim()))
                 counter.append(schedule.num_scheduled_operations)
                 return fig
             ctx.probe("real_plotter_frames")
@@ -321,6 +324,27 @@ def execute_anim(case, ctx):
                     ctx.fail("animation_raised", f"{cfg['api']} over a {n}-operation history raised {short_exc(e)}", exc=type(e).__name__)
                     return
         ctx.count("animation")
+        if cfg.get("then_shorter") and cfg["api"] == "gif" and cfg["plot"] == "stub" and n >= 3 and not cfg["stale"]:
+            first_images = [im for im in sink[-1][1]] if sink else []
+            n2 = max(1, n // 2)
+            with patched(gm, "os", ListdirProxy(cfg["listdir_seed"], ctx)), patched(gm, "imageio", ImageioProxy(imageio, sink, False)):
+                with warnings.catch_warnings():
+                    warnings.simplefilter("ignore")
+                    counter.clear()
+                    try:
+                        create_gantt_chart_gif(inst, out, plot_function=plot, schedule_history=history[:n2], **kw)
+                    except Exception as e:  # noqa: BLE001
+                        ctx.fail("animation_raised", f"second (shorter) animation through the same frames directory raised {short_exc(e)}", exc=type(e).__name__)
+                        return
+            shown2 = [decode(im) for im in sink[-1][1]]
+            if cfg["remove_frames"]:
+                ctx.check(shown2 == list(range(1, n2 + 1)), "kth_frame_shows_first_k_operations",
+                          lambda: f"a {n2}-operation history animated after a {n}-operation one through the same frames directory (frames removed in between) shows {shown2}", long=False)
+            else:
+                ctx.check(shown2[:n2] == list(range(1, n2 + 1)), "kth_frame_shows_first_k_operations", lambda: f"second animation: first {n2} frames show {shown2[:n2]}", long=False)
+            ctx.probe("second_animation_same_directory")
+            counter[:] = list(range(1, n + 1))
+            del sink[-1]
         if sink:
             path, images, _ = sink[-1]
         elif os.path.exists(out) and cfg["api"] != "video":
@@ -353,6 +377,11 @@ def execute_anim(case, ctx):
                 want = sorted((float(s), float(e), 1.0 + 10 * mm) for (_, _, mm, s, e) in m.hist[: k + 1])
                 got = sorted((b[0], b[1], b[2]) for b in frames_bars[k])
                 ctx.check(got == want, "kth_frame_shows_first_k_operations", lambda: f"real plotter frame {k + 1}: bars {got}, first {k + 1} history entries {want}", long=False)
+                final = m.makespan()
+                if final > 0:
+                    # every frame is drawn on the time axis of the finished schedule: no bar may be cut off
+                    ctx.check(frames_xlim[k][1] >= max(b[1] for b in frames_bars[k]) and frames_xlim[k] == (0.0, float(final)), "frame_axis_ends_at_final_makespan",
+                              lambda: f"real plotter frame {k + 1}: x-axis {frames_xlim[k]}, makespan of the recorded history {final}")
         if n >= 100:
             ctx.probe("history_100_plus")
     finally:
